@@ -152,3 +152,13 @@ Proof.
   cbv zeta. repeat split; try (apply cx_ext; vm_compute; reflexivity);
     intro H; apply (f_equal re) in H; vm_compute in H; discriminate H.
 Qed.
+
+(* non-vacuity of the source tie: the regenerated layout evaluated on a 2-D grid with N = 6 - stored index (4, 3) holds the wavenumber
+   vector (-2, 3) (ij), the oddball mask removes it (Nyquist on the last axis), the reconstruction scaling there is 6 * 6 = 36 over the rationals *)
+From Coq Require Import QArith Qcanon.
+Example C04_ex_regenerated_layout :
+  gen_build_wavenumbers false 2 6 0 [4; 3]%Z = (-2)%Z /\ gen_build_wavenumbers false 2 6 1 [4; 3]%Z = 3%Z
+  /\ gen_oddball_filter_mask 2 6 [4; 3]%Z = false /\ gen_oddball_filter_mask 2 6 [4; 2]%Z = true
+  /\ this (gen_build_scaling_array_reconstruction QcField false 2 6 [4; 3]%Z) = (36 # 1)%Q
+  /\ this (gen_build_scaling_array_reconstruction QcField false 2 6 [4; 2]%Z) = (18 # 1)%Q.
+Proof. repeat split; vm_compute; reflexivity. Qed.
